@@ -164,7 +164,7 @@ def run(ctx):
         rows = conversion_function(ctx, F, cfg)
         ctx.floor("conversion rows (cbor_smol::Error variants + 1)", rows, 20, cfg=cfg)
         exits = funnel(ctx, F, cfg)
-        ctx.floor("error exits of Request::deserialize", exits, 9, cfg=cfg)
+        ctx.floor("error exits of Request::deserialize", exits, 3, cfg=cfg)
         # required sets
         n_req = 0
         for path, s in spec["requests"].items():
